@@ -40,7 +40,7 @@ PARTIAL = ["Lean theorems cover the lexical freedom of the DBC SG_/BO_ statement
            "ARXML: AUTOSAR 4 subset without MULTIPLEXED-I-PDU, container and secured PDUs; KCD: one bus; SYM: format version 5.0",
            "the independent writers are part of the harness and trusted to follow the format definitions; position conventions follow the "
            "formats' writers in canmatrix (C06) where the definition leaves the numbering open"]
-ASSUMPTIONS = ["ARXML with several clusters: the first cluster in the file that holds a frame which later clusters hold too is not judged (CanCluster.update_frames/"
+ASSUMPTIONS = ["ARXML with several clusters: the first cluster in the file that holds a frame which later clusters hold too is an open finding, generated for one frame in four and classified (CanCluster.update_frames/"
                "update_signals of the unchanged code add the later clusters' senders and receivers to that frame object); further clusters state reception per frame, "
                "not per signal, and by ECUs that receive nothing of the frame on Main",
                "DBC: blanks (not tabs) between tokens; SYM and DBF: single separators as their tools emit them",
@@ -380,11 +380,17 @@ def gen(rng, tier, shard, nshards):
             by_name = {c["name"]: c for c in net2["clusters"]}
             for f in net2["frames"]:
                 holders = [b for b in net2["cluster_order"] if b == "Main" or f["name"] in by_name[b]["frames"]]
-                # (kept out for now: the first cluster in the file that holds a frame which other clusters hold too - the unchanged
-                # CanCluster.update_frames/update_signals add the senders and receivers of the later clusters to that frame object)
-                for bus in (holders[1:] if len(holders) > 1 else holders):
+                # the first cluster in the file that holds a frame which other clusters hold too is an open finding (known_findings.json
+                # C15-arxml-frame-on-several-clusters: CanCluster.update_frames/update_signals add the senders and receivers of the later
+                # clusters to that frame object): it is generated for one frame in four, marked `first_holder`, and classified
+                for n, bus in enumerate(holders):
+                    if n == 0 and len(holders) > 1 and rng.random() >= 0.25:
+                        continue
                     d = f if bus == "Main" else routed_frame(f, by_name[bus]["frames"][f["name"]])
-                    yield {"op": "read", "c": dict(base2, bus=bus, nclusters=len(holders), fid=f["id"], ext=f["ext"], desc=N.expected_frame(d))}
+                    cc = dict(base2, bus=bus, nclusters=len(holders), fid=f["id"], ext=f["ext"], desc=N.expected_frame(d))
+                    if n == 0 and len(holders) > 1:
+                        cc["first_holder"] = True
+                    yield {"op": "read", "c": cc}
             for c in net2["clusters"]:
                 yield {"op": "ecus", "c": dict(base2, bus=c["name"], ecus=list(c["ecus"]))}
         if fmt == "dbc":
@@ -548,6 +554,8 @@ def nontrivial(case, impl):
 def classify(case, impl, spec):
     if case["op"] == "read" and case["c"]["fmt"] == "json" and impl.get("native") and re.search(r"(factor|offset) differs", spec or ""):
         return "C15-json-native-float"
+    if case["op"] == "read" and case["c"]["fmt"] == "arxml" and case["c"].get("first_holder") and re.search(r"(senders|receivers) differ", spec or ""):
+        return "C15-arxml-frame-on-several-clusters"
     return None
 
 
